@@ -142,7 +142,35 @@ func (g *Gen) hostileStream() []byte {
 	}
 	counts := []string{"0", "-1", "-2", "99999999999999999999", "2147483648", "+3", "03", " 3", "3 ", "", "x", "1048577", "-0"}
 	lens := []string{"-1", "-2", "+3", "03", " 3", "", "536870913", "99999999999999999999", "x"}
-	switch g.R.Intn(16) {
+	// numbers that equal a valid count/length only after wrapping (2^64, 2^32 added) or after sloppy parsing
+	wrapNum := func(v int) string {
+		switch g.R.Intn(6) {
+		case 0:
+			return fmt.Sprintf("1844674407370955%d", 1616+v) // 2^64 + v (v < 8000)
+		case 1:
+			return fmt.Sprint(4294967296 + int64(v)) // 2^32 + v
+		case 2:
+			return fmt.Sprintf("3689348814741910%d", 3232+v) // 2*2^64 + v
+		case 3:
+			return fmt.Sprintf("%d ", v)
+		case 4:
+			return fmt.Sprintf("0%d", v)
+		}
+		return fmt.Sprintf("+%d", v)
+	}
+	switch g.R.Intn(19) {
+	case 16: // count field replaced
+		key := fmt.Sprintf("hk%d", g.R.Intn(1000))
+		fmt.Fprintf(&b, "*%s\r\n$3\r\nget\r\n$%d\r\n%s\r\n", wrapNum(2), len(key), key)
+	case 17: // a bulk length replaced (command name or argument)
+		key := fmt.Sprintf("hk%d", g.R.Intn(1000))
+		if g.R.Pct(50) {
+			fmt.Fprintf(&b, "*2\r\n$3\r\nget\r\n$%s\r\n%s\r\n", wrapNum(len(key)), key)
+		} else {
+			fmt.Fprintf(&b, "*3\r\n$%s\r\nset\r\n$%d\r\n%s\r\n$1\r\nv\r\n", wrapNum(3), len(key), key)
+		}
+	case 18: // in a multi-key command
+		fmt.Fprintf(&b, "*3\r\n$4\r\nmget\r\n$%s\r\nhka\r\n$3\r\nhkb\r\n", wrapNum(3))
 	case 0:
 		fmt.Fprintf(&b, "*%s\r\n", g.R.Pick(counts))
 	case 1:
